@@ -722,6 +722,12 @@ macro_rules! c17_fo {
         c17_fo!(@body $follow, $r, $t, $up, $unwind, any_grammar_kinds::<{ $up }>($rule, $len, $kinds, $r, $t));
     };
     (@body $follow:ident, $r:expr, $t:expr, $up:expr, $unwind:expr, $mk:expr) => {
+        c17_fo!(@body $follow, $r, $t, $up, $unwind, $mk, 0);
+    };
+    ($follow:ident, $r:expr, $t:expr, $up:expr, $rule:expr, $len:expr, $kinds:expr, $unwind:expr, region = $region:expr) => {
+        c17_fo!(@body $follow, $r, $t, $up, $unwind, any_grammar_kinds::<{ $up }>($rule, $len, $kinds, $r, $t), $region);
+    };
+    (@body $follow:ident, $r:expr, $t:expr, $up:expr, $unwind:expr, $mk:expr, $region:expr) => {
         #[kani::proof]
         #[kani::unwind($unwind)]
         pub fn $follow() {
@@ -730,6 +736,14 @@ macro_rules! c17_fo {
             const P: usize = $up + 1;
             let g = $mk;
             let fl = flatten::<P>(&g);
+            // known finding (known_findings.json): in `A: A B t` with B nullable, t is missing from FOLLOW(A).
+            // region 1 = every grammar of the shape except that one, region 2 = that one alone.
+            let in_region = fl.len[0] == 3 && fl.is_rule[0][0] && fl.idx[0][0] == 1 && fl.is_rule[0][1] && fl.idx[0][1] == 2;
+            if $region == 1 {
+                kani::assume(!in_region);
+            } else if $region == 2 {
+                kani::assume(in_region);
+            }
             let (n, f) = ref_first::<P, R, T, { 2 * $r - 1 }>(&fl);
             let w0 = [[false; T]; R];
             assert!(ff_model::<P, R, T>(&fl, &n, &f, &w0, false), "oracle: reference FIRST / nullable is stable");
@@ -773,6 +787,8 @@ c17_fo!(c17_fo_t2_a3_b0, 3, 2, 2, [1, 2], [3, 0], 6);
 // slot kinds concrete (which rule / which token symbolic)
 c17_fo!(c17_fok_a3_b0_rrt, 3, 3, 2, [1, 2], [3, 0], [*b"RRT", *b"---"], 5);
 c17_fo!(c17_fok_t2_a3_b0_rrt, 3, 2, 2, [1, 2], [3, 0], [*b"RRT", *b"---"], 5);
+c17_fo!(c17_fok_t2_a3_b0_rrt_rest, 3, 2, 2, [1, 2], [3, 0], [*b"RRT", *b"---"], 5, region = 1);
+c17_fo!(c17_fok_t2_a3_b0_rrt_known, 3, 2, 2, [1, 2], [3, 0], [*b"RRT", *b"---"], 5, region = 2);
 c17_fo!(c17_fok_a3_b0_rrr, 3, 3, 2, [1, 2], [3, 0], [*b"RRR", *b"---"], 6);
 c17_fo!(c17_fok_a3_b0_rtr, 3, 3, 2, [1, 2], [3, 0], [*b"RTR", *b"---"], 6);
 c17_fo!(c17_fok_a3_b0_trr, 3, 3, 2, [1, 2], [3, 0], [*b"TRR", *b"---"], 6);
